@@ -12,8 +12,10 @@ S1Opts == {[sets |-> s, items |-> i] : s \in SUBSET {"S2"}, i \in SUBSET {"A1", 
 S2Opts == {[sets |-> s, items |-> i] : s \in SUBSET {"S1"}, i \in SUBSET {"A2", "A3"}}
 R1Opts == {[sets |-> s, items |-> i] : s \in SUBSET {"R2"}, i \in SUBSET {P10a, V33b}}
 R2Opts == {[sets |-> s, items |-> i] : s \in SUBSET {"R1"}, i \in SUBSET {P9b}}
-Rngs == {NoRange, <<10, 10>>, <<9, 10>>, <<10, 11>>}
-RsRngs == {NoRange, <<10, 11>>, <<11, 11>>}
+(* <<33, 34>>, <<33, 33>>: lengths that only IPv6 prefixes can have - applied to a set with prefixes of both families,  *)
+(* the IPv4 members contribute nothing and the IPv6 members their more specifics                                      *)
+Rngs == {NoRange, <<10, 10>>, <<9, 10>>, <<10, 11>>, <<33, 34>>}
+RsRngs == {NoRange, <<10, 11>>, <<11, 11>>, <<33, 33>>}
 Leaves ==
   {[op |-> "asset", name |-> n, rng |-> r] : n \in {"S1", "S2"}, r \in Rngs}
   \cup {[op |-> "as", name |-> n, rng |-> r] : n \in {"A1", "A2"}, r \in Rngs}
